@@ -361,3 +361,49 @@ package keeper
 //@   invariant #1 nonempty: forall j:Int :: 0 <= j && j < len(outputs) ==> len(outputs[j]) > 0
 //@   ensures valid_only: forall j:Int :: 0 <= j && j < len(outputs) ==> len(outputs[j]) > 0
 //@ end
+
+//@ func Keeper.validateServiceFeeCap
+//@   property C08, C13
+//@   trusted
+//@   returns err
+//@ end
+
+// A stored repeated context never asks for a new batch before the previous one can have expired.
+//@ define scheduleOK(c) = c.RepeatedFrequency >= c.Timeout && c.Timeout > 0
+
+//@ func Keeper.UpdateRequestContext
+//@   property C08, C13
+//@   returns err
+//@   requires has(prm)
+//@   requires has(contexts, requestContextID) ==> scheduleOK(CTX(requestContextID))
+//@   modifies contexts
+//@   invariant #1 idx: rangeindex >= 0 - 1 && rangeindex < len(providers)
+//@   invariant #1 frame: contexts == old(contexts)
+//@   ensures consumer_only: err == nil ==> old(has(contexts, requestContextID)) && (len(old(CTX(requestContextID)).ModuleName) > 0 ==> bech(consumer) == old(CTX(requestContextID)).Consumer)
+//@                            && old(CTX(requestContextID)).State != types.COMPLETED
+//@   ensures keeps_schedule: err == nil ==> scheduleOK(CTX(requestContextID))
+//@   ensures identity:   err == nil ==> CTX(requestContextID).Consumer == old(CTX(requestContextID)).Consumer && CTX(requestContextID).ServiceName == old(CTX(requestContextID)).ServiceName
+//@                            && CTX(requestContextID).State == old(CTX(requestContextID)).State && CTX(requestContextID).BatchCounter == old(CTX(requestContextID)).BatchCounter
+//@   ensures others:     forall i:Bytes :: i != requestContextID ==> has(contexts, i) == old(has(contexts, i)) && CTX(i) == old(CTX(i))
+//@   ensures rejected:   err != nil ==> contexts == old(contexts)
+//@ end
+
+//@ func Keeper.PauseRequestContext
+//@   property C08
+//@   returns err
+//@   modifies contexts
+//@   ensures guard:   err == nil ==> old(has(contexts, requestContextID)) && old(CTX(requestContextID)).Repeated && old(CTX(requestContextID)).State == types.RUNNING
+//@                      && (len(old(CTX(requestContextID)).ModuleName) > 0 ==> bech(consumer) == old(CTX(requestContextID)).Consumer)
+//@   ensures paused:  err == nil ==> contexts == set(old(contexts), requestContextID, with(old(CTX(requestContextID)), "State", types.PAUSED))
+//@   ensures rejected: err != nil ==> contexts == old(contexts)
+//@ end
+
+//@ func Keeper.KillRequestContext
+//@   property C08
+//@   returns err
+//@   modifies contexts
+//@   ensures guard:   err == nil ==> old(has(contexts, requestContextID)) && old(CTX(requestContextID)).Repeated
+//@                      && (len(old(CTX(requestContextID)).ModuleName) > 0 ==> bech(consumer) == old(CTX(requestContextID)).Consumer)
+//@   ensures killed:  err == nil ==> contexts == set(old(contexts), requestContextID, with(old(CTX(requestContextID)), "State", types.COMPLETED))
+//@   ensures rejected: err != nil ==> contexts == old(contexts)
+//@ end
